@@ -547,6 +547,55 @@ def r5_modes(repo):
     return obs
 
 
+def r6_identity(repo):
+    """The reverse map `_namespaces` is a dict keyed by the declaration object and `get_decl` tests its hit for truth:
+    both mean *this object* only while declarations keep Python's default identity semantics.  A value `__eq__`/`__hash__`
+    on a declaration class conflates look-alike declarations of different namespaces in the reverse map; a `__len__` /
+    `__bool__` makes some declarations falsy, and the scoped lookup walks past them."""
+    obs = []
+    decl = repo.cls("src.ir.ast.Declaration")
+    keyed = [c for c in repo.classes.values() if c.module.name == "src.ir.ast" and
+             (decl in c.mro() or c.name == "Lambda")]
+    if len(keyed) < 7:
+        raise AnalysisError("declaration classes not found (%d)" % len(keyed), rule="C16-R6", anchor="src.ir.ast")
+    f = repo.fn("src.ir.context.get_decl")
+    truth_tests = []
+    for n in iter_own_nodes(f.node):
+        if isinstance(n, (ast.If, ast.While, ast.IfExp)):
+            t = n.test
+            while isinstance(t, ast.UnaryOp) and isinstance(t.op, ast.Not):
+                t = t.operand
+            parts = t.values if isinstance(t, ast.BoolOp) else [t]
+            for x in parts:
+                while isinstance(x, ast.UnaryOp) and isinstance(x.op, ast.Not):
+                    x = x.operand
+                if isinstance(x, ast.Name):
+                    prov = Prov(f.node, passthrough={"get"})
+                    if any(isinstance(s_, ast.Call) and call_name(s_) in ("get", "get_declarations", "get_decl")
+                           for s_ in prov.sources(x) if isinstance(s_, ast.AST)):
+                        truth_tests.append(src(n.test))
+    for c in sorted(keyed, key=lambda c: c.qualname):
+        forbidden = ["__eq__", "__ne__", "__hash__"] + (["__bool__", "__len__"] if truth_tests else [])
+        found = []
+        for k in c.mro():
+            for nm in forbidden:
+                m = k.methods.get(nm)
+                if m is None:
+                    continue
+                # `return True` / `return self is other` keep the default meaning
+                body = [s_ for s_ in m.node.body if not (isinstance(s_, ast.Expr) and isinstance(s_.value, ast.Constant))]
+                if len(body) == 1 and isinstance(body[0], ast.Return) and " ".join(src(body[0]).split()) in (
+                        "return True", "return self is other", "return id(self)", "return other is self"):
+                    continue
+                found.append(m.qualname)
+        obs.append(Ob("C16-R6", "%s:identity-semantics" % c.name, _where(repo, c.methods.get("__init__") or
+                                                                       next(iter(c.methods.values()), None))
+                      if c.methods else "src/ir/ast.py", not found,
+                      "declarations are dict keys of the reverse map%s: %s defines %s"
+                      % (" and tested for truth in get_decl (`%s`)" % truth_tests[0] if truth_tests else "", c.name, found)))
+    return obs
+
+
 def rules():
     return [
         RuleSpec("C16-R1", "entity table: writers, removers, readers agree on kinds", 18, r1_entity_table),
@@ -554,6 +603,7 @@ def rules():
         RuleSpec("C16-R3", "get_decl walks from the innermost namespace outwards", 5, r3_innermost),
         RuleSpec("C16-R4", "'decls' kind keeps insertion order", 1, r4_ordered),
         RuleSpec("C16-R5", "three query modes of _get_declarations", 7, r5_modes),
+        RuleSpec("C16-R6", "declarations keep identity semantics (reverse-map keys, truth-tested hits)", 7, r6_identity),
     ]
 
 
